@@ -3,6 +3,7 @@
 # applies a one-line mutation to /repo, runs the checks, restores /repo.
 f="$1"; pat="$2"; rep="$3"; shift 3
 cd /repo || exit 2
+if [ -n "$(git status --porcelain)" ]; then echo "REFUSING: /repo has uncommitted changes"; exit 4; fi
 /venv/bin/python - "$f" "$pat" "$rep" <<'PY'
 import re,sys
 f,pat,rep=sys.argv[1:4]
